@@ -374,6 +374,58 @@ func (e *Engine) evalSpecCall(x *SExpr, env *SpecEnv) Value {
 				return e.fnArg(fv, atoi(strings.TrimPrefix(fn.Val, "arg")), k)
 			}
 		}
+		// pure Go method on a receiver (e.g. m.IdlePeriod()): inlined
+		if bt, ok := base.(VTerm); ok && bt.T.Sort == SRef {
+			if dt, ok := e.dynType[bt.T.String()]; ok {
+				bt = VTerm{T: bt.T, Typ: dt}
+			}
+			obj, _, _ := types.LookupFieldOrMethod(bt.Typ, true, nil, fn.Val)
+			if obj == nil {
+				if p, ok := bt.Typ.(*types.Pointer); ok {
+					obj, _, _ = types.LookupFieldOrMethod(p.Elem(), true, nil, fn.Val)
+				}
+			}
+			if m, ok := obj.(*types.Func); ok {
+				if msig := m.Type().(*types.Signature); msig.Recv() != nil {
+					if _, isIface := msig.Recv().Type().Underlying().(*types.Interface); isIface {
+						// pure interface method: deterministic uninterpreted function of the receiver, constrained by the interface contract
+						iname := "?"
+						if nn, ok := msig.Recv().Type().(*types.Named); ok {
+							iname = nn.Obj().Name()
+						}
+						ck := shortPkg(m.Pkg().Path()) + "." + iname + "." + m.Name()
+						ic := e.w.IfaceContracts[ck]
+						if ic == nil || !ic.Pure {
+							unsup("spec: no pure interface contract for %s", ck)
+						}
+						rt := msig.Results().At(0).Type()
+						as := []*Term{bt.T}
+						for _, a := range args {
+							as = append(as, term(e.evalSpec(a, env)))
+						}
+						r := e.wrap(mkApp("pure_"+sanitize(ic.Pkg+"_"+iname+"."+m.Name()), e.sortOf(rt), as...), rt)
+						names := map[string]Value{"self": bt, "result": r}
+						for _, cl := range ic.byKind("ensures", "") {
+							env.st.assume(term(e.evalSpec(cl.Expr, &SpecEnv{e: e, st: env.st, names: names, noScope: true, tpkg: m.Pkg()})))
+						}
+						return r
+					}
+				}
+				fi := e.w.Funcs[e.w.keyOf(m)]
+				if fi == nil || !e.inlineable(fi) {
+					unsup("spec: method %s is not an inlineable pure function", fn.Val)
+				}
+				var as []Value
+				for _, a := range args {
+					as = append(as, e.evalSpec(a, env))
+				}
+				tmp := env.st.clone()
+				nob := len(e.obls)
+				v := e.inlineFunc(fi, bt, as, tmp)
+				e.obls = e.obls[:nob]
+				return v
+			}
+		}
 		unsup("spec: method call %s", x)
 	}
 	if fn.Kind != "ident" {
@@ -411,6 +463,13 @@ func (e *Engine) evalSpecCall(x *SExpr, env *SpecEnv) Value {
 		default:
 			return VTerm{T: e.closed(env.st, s.ID), Typ: boolT}
 		}
+	case "hor":
+		v := e.evalSpec(args[0], env)
+		s, ok := v.(VStream)
+		if !ok {
+			unsup("spec: hor of %T", v)
+		}
+		return VTerm{T: mkApp("hor", SInt, s.ID, term(e.evalSpec(args[1], env))), Typ: intT}
 	case "max", "min":
 		vs := evalArgs()
 		a, b := term(vs[0]), term(vs[1])
